@@ -4,6 +4,7 @@ import (
 	"bytes"
 	"fmt"
 	"testing"
+	"time"
 
 	"pgregory.net/rapid"
 	"verifh/refmqtt"
@@ -54,7 +55,7 @@ func (h *H) checkOrderAndDup(msgs []*Msg, strictDup bool) (inflightAtReconnect i
 				} else {
 					onThisConn++
 				}
-				if strictDup {
+				if strictDup && !m.Inherited { // resumed after a restart: DUP either way (L7)
 					switch {
 					case st.complete && !p.Dup:
 						h.Failf("conn %d: retransmission of %#04x (%q), which had been written completely before, lacks the DUP flag", c.N, m.ID, m.Req.Topic)
@@ -105,8 +106,8 @@ func (h *H) checkOrderAndDup(msgs []*Msg, strictDup bool) (inflightAtReconnect i
 	// exchange channels close in acceptance order
 	var open [3]*Msg
 	for _, m := range msgs {
-		if m.AcceptedSeq == 0 {
-			continue
+		if m.AcceptedSeq == 0 || m.Inherited {
+			continue // (an adopted transfer has no exchange channel in this process)
 		}
 		var done bool
 		h.WithLock(func() { done = m.Call.ExchDone })
@@ -136,7 +137,12 @@ func TestC05OrderDup(t *testing.T) {
 		cfg := baseConfig()
 		cfg.AtLeastOnceMax = rapid.SampledFrom([]int{1, 2, 3, 5, 16, 64}).Draw(rt, "max1")
 		cfg.ExactlyOnceMax = rapid.SampledFrom([]int{1, 2, 3, 5, 16, 64}).Draw(rt, "max2")
-		h := newH(rt, "C05", sim.Options{Config: cfg})
+		var h *H
+		if rapid.IntRange(0, 3).Draw(rt, "startAtWrap") == 0 && cfg.AtLeastOnceMax > 1 && cfg.ExactlyOnceMax > 1 {
+			h = newWrapH(rt, "C05", cfg, []byte{1, 2})
+		} else {
+			h = newH(rt, "C05", sim.Options{Config: cfg})
+		}
 		h.Act("config AtLeastOnceMax=%d ExactlyOnceMax=%d", cfg.AtLeastOnceMax, cfg.ExactlyOnceMax)
 		var fc faultCounters
 		nontrivial := false
@@ -213,6 +219,30 @@ func TestC05OrderDup(t *testing.T) {
 			h.checkOrderAndDup(msgs, true)
 		}
 		rt.Repeat(actions)
+
+		// "… after a reconnect or restart all unacknowledged ones are
+		// retransmitted in that same order before anything newly submitted":
+		// half of the histories end in a stop and an adoption
+		if rapid.Bool().Draw(rt, "restartAtEnd") {
+			h.Shutdown(5 * time.Second)
+			k := rapid.IntRange(2, h.Store.NOps()).Draw(rt, "stopPoint")
+			n, pend := h.restart(restartOpts{K: k, Late: rapid.Bool().Draw(rt, "late"), Config: cfg})
+			n.checkAdoption(pend) // exactly the pending ones, original identifiers, original order, right stage
+			n.checkContinuation(pend)
+			if len(pend) >= 2 {
+				n.label("restart-with->=2-pending")
+				nontrivial = true
+			}
+			h = n
+			h.drain(func() bool { return h.allPersistedDone() && h.outboundStoreEmpty() })
+			noPanics(h)
+			h.checkWire()
+			msgs := h.messages()
+			h.checkResend(msgs, true)
+			h.checkOrderAndDup(msgs, false) // DUP after a restart: either (documented)
+			nontrivial = nontrivial || overlaps > 0
+			return
+		}
 
 		h.drain(h.allPersistedDone)
 		noPanics(h)
